@@ -31,6 +31,12 @@ pub struct C17Plan {
     pub texts: Vec<String>,
     #[serde(default)]
     pub only: Option<(String, usize)>,
+    /// process tier: seed of the read/write interposer for the real convert_kytea_model binary
+    /// (None = this plan does not run the tool) and truncation points as fractions of the file
+    #[serde(default)]
+    pub tool_io_seed: Option<u64>,
+    #[serde(default)]
+    pub tool_truncations: Vec<u16>,
 }
 
 impl C17Plan {
@@ -77,7 +83,9 @@ pub fn plan_for(seed: u64, run: u64, files: &[(String, Vec<u8>)]) -> C17Plan {
     let chunk_sched = Sched::benign(&mut rng);
     let mut texts: Vec<String> = (0..3).map(|_| gen::gen_text(&mut rng)).collect();
     texts.push("まぁ社長は火星猫だ".to_string());
-    C17Plan { src, read_scheds, chunk_sched, texts, only: None }
+    let tool_io_seed = if run % 3 == 0 { Some(rng.next_u64() >> 1) } else { None };
+    let tool_truncations = (0..3).map(|_| rng.below(65536) as u16).collect();
+    C17Plan { src, read_scheds, chunk_sched, texts, only: None, tool_io_seed, tool_truncations }
 }
 
 #[derive(Clone, Debug)]
@@ -383,6 +391,70 @@ pub fn execute(plan: &C17Plan) -> (Option<C17Violation>, C17Stats) {
                 Some(Err(_)) => {}
             }
         }
+    }
+    // ---- T: the real convert_kytea_model binary under the syscall interposer ------------------
+    if let (Some(io_seed), Ok(tool), true) = (plan.tool_io_seed, std::env::var("VERIF_CONVERT"), want_sc("T") && l <= 200_000) {
+        let shim = std::env::var("VERIF_SHIM").unwrap_or_default();
+        let dir = std::path::PathBuf::from(std::env::var("VERIF_SCRATCH").unwrap_or_else(|_| "/tmp".into())).join(format!("c17-{}", std::process::id()));
+        let _ = std::fs::create_dir_all(&dir);
+        let run_tool = |bytes: &[u8]| -> Option<(Option<i32>, String, Option<Vec<u8>>)> {
+            let inp = dir.join("in.bin");
+            let outp = dir.join("out.zst");
+            let _ = std::fs::remove_file(&outp);
+            std::fs::write(&inp, bytes).ok()?;
+            let o = std::process::Command::new(&tool)
+                .arg("--model-in")
+                .arg(&inp)
+                .arg("--model-out")
+                .arg(&outp)
+                .env("LD_PRELOAD", &shim)
+                .env("VERIF_IO_SEED", io_seed.to_string())
+                .env_remove("VERIF_IO_TRACE")
+                .env("RUST_BACKTRACE", "0")
+                .output()
+                .ok()?;
+            let out = std::fs::read(&outp).ok();
+            Some((o.status.code(), String::from_utf8_lossy(&o.stderr).to_string(), out))
+        };
+        st.attempts += 1;
+        match run_tool(&f) {
+            None => {
+                probe!("convert-tool-could-not-be-started");
+            }
+            Some((code, stderr, out)) => {
+                probe!("convert-tool-runs");
+                if stderr.contains("panicked at") {
+                    fail!("T1:tool-crash", "T", 0, "convert-tool", stderr.lines().find(|l| l.contains("panicked at")).unwrap_or("").to_string());
+                }
+                if code != Some(0) {
+                    fail!("T1:tool-failed-on-complete-file", "T", 0, "convert-tool", format!("exit {code:?}: {}", stderr.lines().last().unwrap_or("")));
+                }
+                #[cfg(feature = "ffi")]
+                {
+                    let decoded = out.and_then(|z| zstd::decode_all(&z[..]).ok());
+                    if decoded.as_deref() != Some(&reference[..]) {
+                        fail!("T1:tool-output-differs", "T", 0, "convert-tool", "the model written by convert_kytea_model differs from the library conversion".to_string());
+                    }
+                }
+                #[cfg(not(feature = "ffi"))]
+                let _ = out;
+            }
+        }
+        for (ti, fr) in plan.tool_truncations.iter().enumerate() {
+            let p = if ti == 0 { consumed - 1 } else { usize::from(*fr) * consumed / 65536 };
+            st.attempts += 1;
+            st.faulted_attempts += 1;
+            if let Some((code, stderr, _)) = run_tool(&f[..p]) {
+                if stderr.contains("panicked at") {
+                    fail!("T2:tool-crash-on-truncated-file", "T", p, "convert-tool", format!("file cut at {p} of {consumed} consumed bytes: {}", stderr.lines().find(|l| l.contains("panicked at")).unwrap_or("")));
+                }
+                if code == Some(0) {
+                    fail!("T2:tool-accepts-truncated-file", "T", p, "convert-tool", format!("file cut at {p} of {consumed} consumed bytes was converted with exit status 0"));
+                }
+                probe!("convert-tool-rejects-truncated-file");
+            }
+        }
+        let _ = std::fs::remove_dir_all(&dir);
     }
     dg.u64(st.attempts);
     dg.u64(st.fired.calls);
